@@ -30,7 +30,7 @@ NOT_DECIDED = ["numerical equality with FIPS-197 for every key/block: _MULk, _RC
                "_xtime/_gf_mul/_expand_key; evaluating them would be running the program, proving them is solver territory",
                "behaviour of the memoryview/bytearray plumbing in the ECB/CBC drivers beyond call order and guards"]
 TRUSTED = ["FIPS-197 definitions embedded in the checker (S-box construction, MixColumns circulants, key-schedule guards)", "shape recognisers listed per rule; a recogniser that stops matching is an ANALYSIS-ERROR, never a pass"]
-FLOORS = {"C20-SBOX": 3, "C20-ROUND": 2, "C20-MIX": 4, "C20-KEY": 6, "C20-LEN": 10, "C20-WRAP": 5, "C20-PATCH": 15}
+FLOORS = {"C20-SBOX": 3, "C20-ROUND": 2, "C20-MIX": 4, "C20-KEY": 6, "C20-LEN": 10, "C20-WRAP": 5, "C20-PATCH": 15, "C20-MODE": 6}
 
 
 def _ref_sbox():
@@ -528,6 +528,80 @@ def rule_wrap(ctx: Ctx) -> RuleReport:
     return rep
 
 
+def rule_mode(ctx: Ctx) -> RuleReport:
+    """Buffer ownership in the CBC drivers: the chaining value must be the previous *ciphertext* block, so it may never be a view
+    of a buffer the loop writes (in-place decryption overwrites the ciphertext it still needs)."""
+    rep = RuleReport("C20-MODE", "CBC chaining values never alias a buffer written in the block loop; output goes to a buffer of its own")
+    for name in ("aes_cbc_encrypt", "aes_cbc_decrypt", "aes_ecb_encrypt", "aes_ecb_decrypt"):
+        fi = ctx.p.func(AES, name)
+        loops = [n for n in walk_own(fi.node) if isinstance(n, ast.For)]
+        outer = [l for l in loops if isinstance(l.iter, ast.Call) and (dotted(l.iter.func) or "") == "_chunks" and l.iter.args]
+        if len(outer) != 1:
+            raise AnalysisError(f"C20-MODE: {name} no longer has one block loop over _chunks(...)")
+        lp = outer[0]
+        rep.unit(fi.key)
+        src = lp.iter.args[0]
+        # views: v = memoryview(x) / v = x  -> same storage as x ; bytearray(x) / bytes(x) -> fresh storage
+        view_of: dict[str, str] = {}
+        for n in walk_own(fi.node):
+            if isinstance(n, ast.Assign) and len(n.targets) == 1 and isinstance(n.targets[0], ast.Name):
+                v = n.value
+                if isinstance(v, ast.Call) and (dotted(v.func) or "") == "memoryview" and v.args and isinstance(v.args[0], ast.Name):
+                    view_of[n.targets[0].id] = v.args[0].id
+                elif isinstance(v, ast.Name):
+                    view_of.setdefault(n.targets[0].id, v.id)
+
+        def storage(nm: str) -> str:
+            seen = set()
+            while nm in view_of and nm not in seen and nm not in (lv,):
+                seen.add(nm)
+                nm = view_of[nm]
+            return nm
+
+        lv = lp.target.id if isinstance(lp.target, ast.Name) else "?"
+        src_store = storage(src.id) if isinstance(src, ast.Name) else norm(src)
+        written = set()
+        for n in ast.walk(lp):
+            tgts = []
+            if isinstance(n, ast.Assign):
+                tgts = n.targets
+            elif isinstance(n, ast.AugAssign):
+                tgts = [n.target]
+            for t in tgts:
+                if isinstance(t, ast.Subscript) and isinstance(t.value, ast.Name):
+                    written.add(src_store if t.value.id == lv else storage(t.value.id))
+        params = {a.arg for a in fi.node.args.args}
+        # 1. the output buffer is not an input
+        if written & params:
+            rep.fail(Finding("C20-MODE", AES, name, "writes into " + ", ".join(sorted(written & params)), "the block loop writes into a caller-supplied buffer", line=lp.lineno))
+        else:
+            rep.ok({"fn": name, "written": sorted(written), "iterated": src_store})
+        if not name.startswith("aes_cbc"):
+            continue
+        # 2. chaining: every value carried to the next iteration (assigned in the loop, read before assignment in the next) must not be a view of a written buffer
+        carried = []
+        for n in ast.walk(lp):
+            if isinstance(n, ast.Assign) and len(n.targets) == 1 and isinstance(n.targets[0], ast.Name) and n.targets[0].id != lv:
+                tgt = n.targets[0].id
+                initialised_before = any(isinstance(m, ast.Assign) and any(isinstance(t, ast.Name) and t.id == tgt for t in m.targets) and m.lineno < lp.lineno for m in walk_own(fi.node))
+                if initialised_before:
+                    carried.append(n)
+        if not carried:
+            raise AnalysisError(f"C20-MODE: no loop-carried chaining value found in {name}")
+        for n in carried:
+            v = n.value
+            base = None
+            if isinstance(v, ast.Name):
+                base = src_store if v.id == lv else storage(v.id)
+            elif isinstance(v, ast.Subscript) and isinstance(v.value, ast.Name):
+                base = src_store if v.value.id == lv else storage(v.value.id)
+            if base is not None and base in written:
+                rep.fail(Finding("C20-MODE", AES, name, norm(n), f"the chaining value `{norm(n)}` is a view of `{base}`, which the same loop overwrites: from the second block on, CBC combines with already decrypted bytes instead of the previous ciphertext block", line=n.lineno))
+            else:
+                rep.ok({"fn": name, "carried": norm(n), "storage": base or "fresh value"})
+    return rep
+
+
 AES_FUNCS = ["aes_ecb_encrypt", "aes_ecb_decrypt", "aes_cbc_encrypt", "aes_cbc_decrypt"]
 
 
@@ -577,4 +651,4 @@ def rule_patch(ctx: Ctx) -> RuleReport:
     return rep
 
 
-RULES = [rule_sbox, rule_round, rule_mix, rule_key, rule_len, rule_wrap, rule_patch]
+RULES = [rule_sbox, rule_round, rule_mix, rule_key, rule_len, rule_mode, rule_wrap, rule_patch]
